@@ -21,6 +21,7 @@ import (
 	"encoding/binary"
 	"errors"
 	"fmt"
+	"os"
 	"strings"
 
 	"github.com/nspcc-dev/neo-go/pkg/core/fee"
@@ -645,7 +646,9 @@ func (rn *runner) exec(p *caseProg, emit bool) runResult {
 						droppedPrims++
 					}
 				}
-				ghost = append(ghost, its...)
+				if !unwindFixed {
+					ghost = append(ghost, its...)
+				}
 			}
 			if emit {
 				o.Count(fmt.Sprintf("unwind:k=%d,c=%d", min(kpop, 3), c))
@@ -749,6 +752,12 @@ func (rn *runner) exec(p *caseProg, emit bool) runResult {
 }
 
 var dumpFaults bool
+
+// unwindFixed (env VM_UNWIND_FIXED=1): evaluate a candidate repair of the known finding unwind-across-estack.
+// With the repair handleException releases the items of the evaluation stacks it drops, so nothing is added
+// to the ghost list and the strict exactness oracle demands counter == walk from the real roots alone. (The
+// Lean model mirrors the unrepaired code: the correspondence half is not meaningful in this mode.)
+var unwindFixed = os.Getenv("VM_UNWIND_FIXED") != ""
 
 func trunc(s string, n int) string {
 	if len(s) > n {
